@@ -21,39 +21,45 @@ import (
 // ---------------------------------------------------------------------------
 // helper programs (behaviour defined in Testscript.tla, section "programs")
 
-var helperPrograms = map[string]func(){
+// (registered through testscript.RunMain, the older entry point that takes functions returning an exit status and hands
+// them on to Main: both ways of registering programs are on the path of every helper)
+var helperPrograms = map[string]func() int{
 	// hecho WORD...: the words joined by blanks and a newline on stdout, status 0
-	"hecho": func() {
+	"hecho": func() int {
 		fmt.Println(strings.Join(os.Args[1:], " "))
+		return 0
 	},
 	// hfail: "so\n" on stdout, "se\n" on stderr, status 1
-	"hfail": func() {
+	"hfail": func() int {
 		fmt.Print("so\n")
 		fmt.Fprint(os.Stderr, "se\n")
-		os.Exit(1)
+		return 1
 	},
 	// hcat: copies stdin to stdout, status 0
-	"hcat": func() {
+	"hcat": func() int {
 		io.Copy(os.Stdout, os.Stdin)
+		return 0
 	},
 	// htouch NAME: writes "t\n" to NAME (relative to its working directory) like
 	// open(O_CREAT|O_TRUNC) does; status 1 and "htouch: failed\n" on stderr otherwise
-	"htouch": func() {
+	"htouch": func() int {
 		if len(os.Args) != 2 || os.WriteFile(os.Args[1], []byte("t\n"), 0o666) != nil {
 			fmt.Fprint(os.Stderr, "htouch: failed\n")
-			os.Exit(1)
+			return 1
 		}
+		return 0
 	},
 	// hgetenv VAR: the value of VAR and a newline on stdout, status 0
-	"hgetenv": func() {
+	"hgetenv": func() int {
 		if len(os.Args) != 2 {
-			os.Exit(2)
+			return 2
 		}
 		fmt.Println(os.Getenv(os.Args[1]))
+		return 0
 	},
 	// hblock: never exits on its own and prints nothing; SIGINT and SIGKILL have
 	// their default disposition (the process dies, status "signal: ...")
-	"hblock": func() {
+	"hblock": func() int {
 		for {
 			time.Sleep(time.Hour)
 		}
